@@ -40,17 +40,41 @@ class Violation:
 
 # ------------------------------------------------------------------ sinks and guards
 
+ELEMENTWISE = ("Iterator::for_each", "Iterator::try_for_each", "Iterator::map", "Iterator::filter_map", "Iterator::flat_map", "Iterator::inspect",
+               "Iterator::fold", "Iterator::try_fold", "Option::map", "Option::and_then", "Option::inspect", "Result::map", "Result::and_then", "Result::inspect")
+
+
 class CallSink:
-    def __init__(self, *pats, arg_local_pred=None):
+    """call of one of `pats` — in the body itself, or as the body of a closure handed to an element-wise combinator
+    (`keys.iter().for_each(|k| self.remove(k))` performs the call where `for k in keys { self.remove(k) }` does): then the combinator's
+    call block stands for it (`closure_sites` tells which blocks those are)."""
+
+    def __init__(self, *pats, arg_local_pred=None, in_closures=True):
         self.pats = pats
+        self.in_closures = in_closures
+        self.closure_sites = {}
 
     def blocks(self, body):
         prep(body)
         out = []
+        self.closure_sites = {}
         for b in body.blocks:
             t = b["term"]
-            if not b["cleanup"] and t["k"] == "call" and callee_matches(t, self.pats):
+            if b["cleanup"] or t["k"] != "call":
+                continue
+            if callee_matches(t, self.pats):
                 out.append(b["id"])
+            elif self.in_closures and (t.get("ngen") or t.get("ncallee") or "").endswith(ELEMENTWISE):
+                try:
+                    cls = closures_passed(body._facts, body, t)
+                except Exception:
+                    cls = []
+                for cl in cls:
+                    prep(cl)
+                    if any(x["term"]["k"] == "call" and not x["cleanup"] and callee_matches(x["term"], self.pats) for x in cl.blocks):
+                        out.append(b["id"])
+                        self.closure_sites[b["id"]] = cl
+                        break
         return out
 
     def descr(self):
@@ -60,11 +84,12 @@ class CallSink:
 class AggSink:
     """construction of ADT literal `adt`(::variant)"""
 
-    def __init__(self, adt, variant=None, dest_local=None, dest_ty=None):
+    def __init__(self, adt, variant=None, dest_local=None, dest_ty=None, computed=False):
         self.adt = adt
         self.variant = variant
         self.dest_local = dest_local
         self.dest_ty = dest_ty  # substring that the destination local's type must contain
+        self.computed = computed  # also the branch form of a forwarded Result/Option return (inline.normalise_result_returns)
 
     def blocks(self, body):
         out = []
@@ -73,6 +98,8 @@ class AggSink:
                 continue
             for s in b["stmts"]:
                 rv = s["rv"]
+                if s.get("norm") and not self.computed:
+                    continue
                 if rv["k"] == "agg" and rv["ak"] == "adt" and pat_match(norm(rv["adt"]), [self.adt]) and \
                         (self.variant is None or rv["variant"] == self.variant):
                     if self.dest_local is not None and s["d"][0] != self.dest_local:
@@ -87,11 +114,54 @@ class AggSink:
         return "construct %s%s" % (self.adt.lstrip("*"), "::" + self.variant if self.variant else "")
 
 
-class RetSink:
-    """assignment of the return place `_0`:  kind 'Ok' | 'Some' | 'true' | 'false' | 'Err' | 'None'"""
+def returned_directly(body, x):
+    """is the bool held in local `x` (or computed by comparison site `x`) the function's return value?  Bodies are loaded with their
+    bool returns in branch form (inline.normalise_bool_returns): `_0 = a >= b` reads `x = a >= b; switch x { 0 => _0 = false, _ => _0 = true }`."""
+    d = x["d"] if isinstance(x, dict) else x
+    if isinstance(d, list):
+        d = d[0] if len(d) == 1 else None
+    if d == 0:
+        return True
+    if d is None:
+        return False
+    flows = Taint(body).closure({d})
+    if 0 in flows:
+        return True
+    for b in body.blocks:
+        t = b["term"]
+        if t["k"] == "switch" and t.get("bool_return") and t["on"][0] in ("mv", "cp") and len(t["on"][1]) == 1 and t["on"][1][0] in flows:
+            return True
+    return False
 
-    def __init__(self, kind):
+
+def is_forward(body, t):
+    """does call terminator `t` hand its result on as the function's return value (`_0 = g(..)`, shown in branch form after
+    inline.normalise_*_returns: `x = g(..); switch (discriminant) x { … _0 = Variant(..) … }`)?"""
+    d = t.get("d") or []
+    if d == [0]:
+        return True
+    if len(d) != 1:
+        return False
+    x = d[0]
+    for b in body.blocks:
+        tt = b["term"]
+        if tt["k"] != "switch":
+            continue
+        if tt.get("bool_return") and tt["on"][0] in ("mv", "cp") and tt["on"][1] == [x]:
+            return True
+        if tt.get("result_return") and any(s["rv"]["k"] == "discr" and s["rv"]["p"] == [x] for s in b["stmts"]):
+            return True
+    return False
+
+
+class RetSink:
+    """assignment of the return place `_0`:  kind 'Ok' | 'Some' | 'true' | 'false' | 'Err' | 'None'.
+    For the bool kinds: by default only the constants written in the source (`return true`); with computed=True also the sites where a
+    computed bool that is returned turns out `true` / `false` (the branch form of `_0 = <expr>`)."""
+
+    def __init__(self, kind, computed=False):
         self.kind = kind
+        self.computed = computed
 
     def blocks(self, body):
         out = []
@@ -103,9 +173,9 @@ class RetSink:
                     continue
                 rv = s["rv"]
                 if self.kind in ("true", "false"):
-                    if rv["k"] == "use" and rv["a"][0] == "c" and rv["a"][1] == self.kind:
+                    if rv["k"] == "use" and rv["a"][0] == "c" and rv["a"][1] == self.kind and (self.computed or not s.get("norm")):
                         out.append(b["id"])
-                elif rv["k"] == "agg" and rv["variant"] == self.kind:
+                elif rv["k"] == "agg" and rv["variant"] == self.kind and (self.computed or not s.get("norm")):
                     out.append(b["id"])
         return out
 
@@ -551,6 +621,10 @@ class Run:
             n, acc, rej = gd.edges(body)
             details.append({"guard": gd.label, "sites": n, "reject_edges": len(rej)})
             if not rej or not acc:
+                # the per-element test may sit in the closure of `try_for_each` / `try_fold` / `all`: there a rejecting edge must not
+                # reach the closure's own accepting return (Ok / Continue / true), and the combinator's failure must not reach the sink
+                if self._reject_in_combinator(rule, body, gd, sinks, details):
+                    continue
                 ok = False
                 why = str(getattr(gd, "via", "") or "")
                 self.viol(rule, "guard-missing:%s" % gd.label, "no deciding branch on guard `%s` found in %s%s" % (gd.label, body.path, " (%s)" % why if why else ""), body, body.lines[0])
@@ -567,6 +641,42 @@ class Run:
                     break
         self.inst(rule, "K4r reject-edge", descr or "%s unreachable after failing guards" % sink.descr(), len(sinks), ok, {"guards": details})
         return ok
+
+    def _reject_in_combinator(self, rule, body, gd, sinks, details):
+        g = cfg_of(body)
+        found = False
+        for blk in body.blocks:
+            t = blk["term"]
+            if t["k"] != "call" or blk["cleanup"] or len(t.get("d") or []) != 1:
+                continue
+            gen = t.get("ngen") or t.get("ncallee") or ""
+            if not gen.endswith(("Iterator::try_for_each", "Iterator::try_fold", "Iterator::all")):
+                continue
+            for cl in closures_passed(self.F, body, t):
+                prep(cl)
+                try:
+                    n2, acc2, rej2 = gd.edges(cl)
+                except Exception:
+                    continue
+                if not acc2 or not rej2:
+                    continue
+                gc = cfg_of(cl)
+                oks = set(RetSink("Ok", computed=True).blocks(cl)) | set(RetSink("true", computed=True).blocks(cl)) | \
+                    set(AggSink("core::ops::control_flow::ControlFlow", "Continue", computed=True).blocks(cl))
+                if not oks or any(gc.reach((d,), cut=acc2) & oks for _, d in rej2):
+                    continue
+                # the combinator's own failure (Err / false) must lead away from the sink
+                tr = Tracker(body)
+                if gen.endswith("Iterator::all"):
+                    tr.seed_bool(t["d"][0], True)
+                else:
+                    tr.seed_call_result(t["d"][0], ("Ok",), False)
+                tr.run()
+                if not tr.reject or any(g.reach((d,), cut=tr.accept) & sinks for _, d in tr.reject):
+                    continue
+                found = True
+                details.append({"guard": gd.label, "in_combinator_closure": cl.path.split("::")[-1], "form": gen.split("::")[-1]})
+        return found
 
     # -- K9
     def const_rel(self, rule, descr, fn):
@@ -1164,6 +1274,28 @@ class ForallGuard:
                 acc |= tr.accept
                 rej |= crej
                 self.forms.append("loop")
+            elif gen.endswith("iterator::Iterator::try_fold") or gen.endswith("iterator::Iterator::try_for_each"):
+                # (C) `it.try_fold(init, |acc, x| if check(x) { Ok(..) } else { Err(..) })` / try_for_each: the combinator is Ok only if the
+                # closure was Ok for every element, and the closure is Ok only behind the check's accepting edge
+                if not self._source_ok(F, body, op_local(t["args"][0])):
+                    continue
+                good = False
+                for cl in closures_passed(F, body, t):
+                    prep(cl)
+                    cn2, cacc2, _ = chk.edges(cl)
+                    oks = set(RetSink("Ok", computed=True).blocks(cl)) | set(AggSink("core::ops::control_flow::ControlFlow", "Continue", computed=True).blocks(cl))
+                    if cn2 and cacc2 and oks and not (oks & cfg_of(cl).reach((0,), cut=cacc2)):
+                        good = True
+                if not good:
+                    continue
+                tr = Tracker(body)
+                tr.seed_call_result(t["d"][0], ("Ok",), False)
+                tr.run()
+                if tr.accept:
+                    n += 1
+                    acc |= tr.accept
+                    rej |= tr.reject
+                    self.forms.append("try_fold")
             elif self.check is None and (gen.endswith("iterator::Iterator::any") or gen.endswith("iterator::Iterator::all")):
                 is_any = gen.endswith("::any")
                 if not self._source_ok(F, body, op_local(t["args"][0])):
@@ -1171,8 +1303,8 @@ class ForallGuard:
                 good = False
                 for cl in closures_passed(F, body, t):
                     prep(cl)
-                    direct = [b for b in cl.blocks if b["term"]["k"] == "call" and callee_matches(b["term"], self.check_pats) and b["term"]["d"] == [0]]
-                    others = [st for b in cl.blocks if not b["cleanup"] for st in b["stmts"] if st["d"] == [0]]
+                    direct = [b for b in cl.blocks if b["term"]["k"] == "call" and callee_matches(b["term"], self.check_pats) and is_forward(cl, b["term"])]
+                    others = [st for b in cl.blocks if not b["cleanup"] for st in b["stmts"] if st["d"] == [0] and not st.get("norm")]
                     if direct and not others:
                         good = True
                 if not good:
@@ -1198,7 +1330,9 @@ _WRAP_CACHE = {}
 def _wrapper_edges(F, body, gd):
     """(sites, accepting edges, helper names): calls in `body` to same-crate helpers that enforce `gd` on all their accepting returns.
     `gd` may be a list of guards (an any-of group): then every accepting return of the helper is cut by one of them."""
-    gds = [x for x in (gd if isinstance(gd, (list, tuple)) else [gd]) if isinstance(x, CallGuard) and x.arg_pred is None]
+    # a guard with an argument predicate is evaluated inside the helper as it stands (the predicate sees the helper's body: "the map
+    # is self.records" reads the same there); a predicate tied to the caller's own blocks simply finds nothing in the helper
+    gds = [x for x in (gd if isinstance(gd, (list, tuple)) else [gd]) if isinstance(x, CallGuard)]
     if not gds:
         return 0, set(), []
     prep(body)
@@ -1378,6 +1512,73 @@ def loops_over(F, body, source_pred):
     return out
 
 
+def receiver_chain_calls(body, local, limit=60):
+    """callee names met going back from `local` through copies, borrows and the *receiver* (first argument) of each producing call — the
+    adaptor chain of an iterator, without the provenance of the other arguments of the calls on it"""
+    prep(body)
+    defs = {}
+    for b in body.blocks:
+        if b["cleanup"]:
+            continue
+        for st in b["stmts"]:
+            if len(st["d"]) == 1:
+                defs.setdefault(st["d"][0], []).append(("s", st["rv"]))
+        t = b["term"]
+        if t["k"] == "call" and len(t.get("d") or []) == 1:
+            defs.setdefault(t["d"][0], []).append(("c", t))
+    names, seen, todo = [], set(), [local]
+    while todo and len(seen) < limit:
+        l = todo.pop()
+        if l in seen or l is None:
+            continue
+        seen.add(l)
+        for k, d in defs.get(l, ()):
+            if k == "s":
+                p = d["a"][1] if d["k"] == "use" and d["a"][0] in ("cp", "mv") else d.get("p") if d["k"] in ("ref",) else None
+                if p:
+                    todo.append(p[0])
+            else:
+                names.append(d.get("ncallee") or d.get("ngen") or "?")
+                if d["args"] and d["args"][0][0] in ("cp", "mv"):
+                    todo.append(d["args"][0][1][0])
+    return names
+
+
+def union_sites(F, body, src_locals=None):
+    """Where `body` adds *all* elements of a source collection to a set: `set.extend(src)` — or the explicit loop
+    `for x in src { set.insert(x) }` over the undiminished source with an insert on every iteration.
+    Returns (mutating blocks, "done" blocks after which the union is complete, forms).  `src_locals`: restrict to sources among these
+    locals (closed under flows); None = any source."""
+    prep(body)
+    g = cfg_of(body)
+    ta = Taint(body, through="all")
+    src = ta.closure(set(src_locals)) if src_locals is not None else None
+    mut, done, forms = set(), set(), []
+    for b in body.blocks:
+        t = b["term"]
+        if t["k"] == "call" and not b["cleanup"] and (t.get("ncallee") or "").endswith("::extend") and len(t["args"]) >= 2:
+            if src is None or op_local(t["args"][1]) in src:
+                mut.add(b["id"])
+                done.add(b["id"])
+                forms.append("extend")
+    inserts = {b["id"] for b in body.blocks if b["term"]["k"] == "call" and not b["cleanup"] and (b["term"].get("ncallee") or "").endswith("::insert")}
+    if inserts:
+        for nb, starts, exits, _names in loops_over(F, body, lambda names, fields: True):
+            names = receiver_chain_calls(body, op_local(nb["term"]["args"][0]))
+            if [n for n in names if any(n.endswith(x) or (x + "<") in n for x in DROPPING_ADAPTORS)]:
+                continue
+            if src is not None and op_local(nb["term"]["args"][0]) not in src and not (ta.ref_of.get(op_local(nb["term"]["args"][0]), set()) & src):
+                continue
+            region = g.reach(starts)
+            ins_here = {i for i in inserts if i in region and nb["id"] in g.reach((i,))}
+            if not ins_here or nb["id"] in g.reach(starts, avoid=ins_here):
+                continue        # an iteration can come round without inserting
+            mut |= ins_here
+            done |= {d for _s, d in exits}
+            forms.append("loop-insert")
+    return mut, done, forms
+
+
 def _every_iteration(self, rule, body, source_pred, sink, descr, what):
     """K5 over a loop: every iteration of the loop(s) over the given source passes a `sink` block before the next element is
     taken (no element is skipped), and no element-dropping adaptor sits between the source and the iterator."""
@@ -1457,7 +1658,30 @@ def closure_truth_table(cl, classify, get_pats=("std::collections::hash::map::Ha
             sites[(c["bb"], c["d"])] = (a, c["op"])
     call_atoms = call_atoms or {}
     result_atoms = result_atoms or {}   # callee pattern -> atom: the call returned Ok (a Result whose discriminant is switched on)
-    atoms = sorted({a for a, _ in sites.values()} | ({"S"} if any(b["term"]["k"] == "call" and callee_matches(b["term"], list(get_pats)) for b in cl.blocks) else set())
+    # calls of a local closure (`let pred = |k, t| …; map.retain(|k, _| pred(k, t))`): evaluated as a nested table over the same atoms
+    nested = {}
+    F_ = cl._facts
+    for b_ in cl.blocks:
+        t_ = b_["term"]
+        if t_["k"] != "call" or b_["cleanup"] or not t_.get("args"):
+            continue
+        nm_ = t_.get("ngen") or t_.get("ncallee") or ""
+        if not nm_.endswith(("ops::function::Fn::call", "ops::function::FnMut::call_mut", "ops::function::FnOnce::call_once")):
+            continue
+        inner = None
+        l0 = op_local(t_["args"][0])
+        ty = cl.locals.get(str(l0), "") if l0 is not None else ""
+        if "closure@" in ty or "{closure" in ty:
+            for c2 in F_.item(F_.root_of(cl).path):
+                if c2.kind == "closure" and c2 is not cl and (":%d:" % c2.lines[0]) in ty:
+                    inner = c2
+        if inner is None:
+            return None
+        sub = closure_truth_table(inner, classify, get_pats, call_atoms, result_atoms)
+        if sub is None:
+            return None
+        nested[b_["id"]] = sub
+    atoms = sorted({a for a, _ in sites.values()} | {a for sub in nested.values() for a in sub[0]} | ({"S"} if any(b["term"]["k"] == "call" and callee_matches(b["term"], list(get_pats)) for b in cl.blocks) else set())
                    | {a for pat, a in call_atoms.items() if any(b["term"]["k"] == "call" and callee_matches(b["term"], [pat]) for b in cl.blocks)}
                    | {a for pat, a in result_atoms.items() if any(b["term"]["k"] == "call" and callee_matches(b["term"], [pat]) for b in cl.blocks)})
     if len(atoms) > 4:
@@ -1507,7 +1731,10 @@ def closure_truth_table(cl, classify, get_pats=("std::collections::hash::map::Ha
             if t["k"] == "call":
                 d = t["d"][0] if len(t.get("d") or []) == 1 else None
                 if d is not None:
-                    if (blk["id"], d) in sites:
+                    if blk["id"] in nested:
+                        sa, stab = nested[blk["id"]]
+                        env[d] = stab.get(frozenset((a, env_atoms[a]) for a in sa))
+                    elif (blk["id"], d) in sites:
                         a, op = sites[(blk["id"], d)]
                         env[d] = env_atoms[a] if op == "Eq" else (not env_atoms[a])
                     elif callee_matches(t, list(get_pats)):
